@@ -120,7 +120,9 @@ Frags == <<
   Frag(<<LT>> \o Cp("z") \o <<GT>> \o Cp("t") \o <<LT>> \o Cp("y") \o <<SL, GT, LT, SL>> \o Cp("z") \o <<GT>>,
        TRUE, {"elem"}, 1, <<>>, FALSE),                                                           \* 12 <z>t<y/></z>
   Frag(Cp("c") \o <<QU>> \o Cp("d") \o <<39>> \o Cp("e"), TRUE, {"text"}, 0,
-       Cp("c") \o <<QU>> \o Cp("d") \o <<39>> \o Cp("e"), FALSE)                                    \* 13 c"d'e  (both quotes)
+       Cp("c") \o <<QU>> \o Cp("d") \o <<39>> \o Cp("e"), FALSE),                                   \* 13 c"d'e  (both quotes)
+  \* 14 <q:z xmlns:q="k" q:w="1">x</q:z>   a replacement with a prefix, its declaration and a prefixed attribute
+  Frag(<<60, 113, 58, 122, 32, 120, 109, 108, 110, 115, 58, 113, 61, 34, 107, 34, 32, 113, 58, 119, 61, 34, 49, 34, 62, 120, 60, 47, 113, 58, 122, 62>>, TRUE, {"elem"}, 1, <<>>, FALSE)
 >>
 
 ValOf(di, ei) == IF Exprs[ei].t = "raw" THEN Err ELSE EvalTop(Docs[di], Exprs[ei], <<>>)
